@@ -274,7 +274,19 @@ class Interp:
             if (
                 wrapped is not None
                 and fn.__code__.co_filename.endswith("contextlib.py")
+                and fn.__code__.co_name == "inner"
                 and isinstance(wrapped, types.FunctionType)
+                and interpretable(wrapped)
+            ):
+                # ContextDecorator.__call__.<locals>.inner: `with self._recreate_cm(): return func(*a, **k)`
+                # is itself interpreted so that the decorated /repo function is
+                return self.call_function(fn, args, kwargs)
+            if (
+                wrapped is not None
+                and fn.__code__.co_filename.endswith("contextlib.py")
+                and fn.__code__.co_name == "helper"
+                and isinstance(wrapped, types.FunctionType)
+                and bool(wrapped.__code__.co_flags & inspect.CO_GENERATOR)
                 and interpretable(wrapped)
             ):
                 # @contextmanager: run contextlib natively over the interpreted generator
